@@ -5,6 +5,7 @@
 // IN tokens (a script; everything needed to re-run the case):
 //
 //	k=<label>                     generator label (ignored by the model)
+//	f=CS|C|S|-                    factory configuration: directions for which the ProcessorFactory returns a processor (default CS)
 //	@<k>                          the following H/D/W tokens belong to stream k of the session (default 0);
 //	                              all streams of a case are created by ONE StreamProcessorFactory value
 //	H<d><es>:<n>:<v>:<n>:<v>...   HEADERS on direction d (C = client-to-server, S = server-to-client), hex name/value pairs
@@ -278,8 +279,23 @@ func runCase(in []string) (out []string) {
 	// ONE factory value for the whole case; every stream of the session is created by it,
 	// as h2 does for every stream of a connection (h2.go: streamProcessors.create).
 	var creating *stream
+	// factory configuration (token f=CS|C|S|-): for which directions the ProcessorFactory returns a
+	// processor; nil for the others, which the documentation allows
+	hasC, hasS := true, true
+	for _, t := range in {
+		if strings.HasPrefix(t, "f=") {
+			hasC, hasS = strings.Contains(t[2:], "C"), strings.Contains(t[2:], "S")
+		}
+	}
 	f := mgrpc.AsStreamProcessorFactory(func(_ *url.URL, server, client mgrpc.Processor) (mgrpc.Processor, mgrpc.Processor) {
-		return &proc{creating, 'C', server}, &proc{creating, 'S', client}
+		var c, s mgrpc.Processor
+		if hasC {
+			c = &proc{creating, 'C', server}
+		}
+		if hasS {
+			s = &proc{creating, 'S', client}
+		}
+		return c, s
 	})
 	streams := map[int]*stream{}
 	var order []int
@@ -290,7 +306,15 @@ func runCase(in []string) (out []string) {
 		st := &stream{id: k, r: r, fed: map[byte][]hpack.HeaderField{}, hdrs: map[byte][][]hpack.HeaderField{}, sunk: map[byte][]byte{}}
 		u, _ := url.Parse(fmt.Sprintf("https://example.com/svc/Method%d", k))
 		creating = st
-		cToS, sToC := f(u, h2.VerifNewProcessorsC11(&sink{st, 'C'}, &sink{st, 'S'}))
+		sinks := h2.VerifNewProcessorsC11(&sink{st, 'C'}, &sink{st, 'S'})
+		cToS, sToC := f(u, sinks)
+		// h2.go: "Bypasses any nil processors"
+		if cToS == nil {
+			cToS = sinks.ForDirection(h2.ClientToServer)
+		}
+		if sToC == nil {
+			sToC = sinks.ForDirection(h2.ServerToClient)
+		}
 		st.procs = map[byte]h2.Processor{'C': cToS, 'S': sToC}
 		streams[k] = st
 		order = append(order, k)
@@ -583,6 +607,7 @@ func main() {
 	rng := hx.NewRNG(cfg.Seed)
 	encs := []byte{'i', 'g', 'f', 's', '-'}
 	places := []byte{'L', 'S', 'N'}
+	cfgs := []string{"f=CS", "f=C", "f=S", "f=-"}
 	dirs := []byte{'C', 'S'}
 
 	// ---- 1. exhaustive: every cut set of every message list whose wire is <= L bytes,
@@ -1003,8 +1028,60 @@ func main() {
 		for i := range sts {
 			sts[i] = mkStream(r, r.Chance(3, 5), dirs[r.Intn(2)], encs[r.Intn(5)], r.Intn(5))
 		}
-		emit("sess", weave(r, sts, r.Intn(3)))
+		toks := weave(r, sts, r.Intn(3))
+		if r.Chance(1, 3) {
+			toks = append([]string{cfgs[r.Intn(4)]}, toks...)
+		}
+		emit("sess", toks)
 		cfg.Count(fmt.Sprintf("sess_streams=%d", ns))
+	}
+
+	// ---- 4c. factory configurations: (c2s, s2c) processors each present or nil, x direction of the
+	// messages x gRPC / non-gRPC x where the content-type is announced x encoding x placement.
+	// The side that has a processor must be shown the messages; the side that has none must pass
+	// untouched.
+	for ci, cf := range cfgs {
+		for _, d := range dirs {
+			for ctw := 0; ctw < 4; ctw++ { // content-type: both, request only, response only, none (non-gRPC)
+				for ei, e := range []byte{'i', 'g', 'f', 's'} {
+					for pi, place := range places {
+						ms := []msg{{true, encodeWith(e, ei+pi, []byte("configured"))}, {false, nil}, {false, []byte("x")}}
+						if (ci+ei+pi)%2 == 1 {
+							ms[0], ms[1] = ms[1], ms[0]
+						}
+						w := wire(ms)
+						req := []string{":method", "POST", ":path", "/svc/M"}
+						resp := []string{":status", "200"}
+						if ctw == 0 || ctw == 1 {
+							req = append(req, "content-type", "application/grpc")
+						}
+						if ctw == 0 || ctw == 2 {
+							resp = append(resp, "content-type", "application/grpc")
+						}
+						if d == 'C' {
+							req = append(req, "grpc-encoding", encNames[e])
+						} else {
+							resp = append(resp, "grpc-encoding", encNames[e])
+						}
+						head := []string{cf, hdrTok('C', false, req...), hdrTok('S', false, resp...)}
+						head = append(head, specToks(d, e, ms)...)
+						var cutsets [][]int
+						cutsets = append(cutsets, nil, []int{5}, []int{len(w) - 1})
+						stride := 7
+						if cfg.Thorough() {
+							stride = 1
+						}
+						for a := 1 + (ci+pi)%stride; a < len(w); a += stride {
+							cutsets = append(cutsets, []int{a})
+						}
+						for _, cuts := range cutsets {
+							emit("cfg", append(append([]string{}, head...), framesFor(d, w, cuts, place)...))
+						}
+						cfg.Count("cfg=" + cf)
+					}
+				}
+			}
+		}
 	}
 
 	// ---- 5. streams that are not gRPC (Content-Type detection): arbitrary DATA must pass untouched
